@@ -524,6 +524,8 @@ func (p *c09) Run(w *lib.Worker, idx int, r *lib.Rand) lib.Case {
 		return c
 	}
 	// the same judgement from a validator object which has validated other documents before
+	// (that validator has just seen a copy of this document with other content under the same names)
+	_ = session.Validate(gen.JSON(gen.TwinOf(lib.NewRand(int64(idx), "C09-twin", idx), doc)), cfg)
 	if reused := session.Validate(badText, cfg); reused.Panic != "" || reused.Key() != badO.Key() {
 		c.Evals++
 		{
